@@ -28,16 +28,28 @@ SIZES_MC = [0, 4, 8, 15, 16]
 INIT_DIRS_24 = [[], [[4]], [[16]], [[8], [0, 0]], [[16]] * 10 + [[4]], [[16]] * 12]
 
 
-def _magic():
-    import bits.p2p as p2p
-    return p2p.MAGIC_START_BYTES
+NET_MAGIC = {"mainnet": bytes.fromhex("f9beb4d9"), "testnet": bytes.fromhex("0b110907"), "regtest": bytes.fromhex("fabfb5da")}
+
+
+def _magic(net=None):
+    """The record magic the property demands: the magic of the network the node is configured for (the harness's own table,
+    not read from the library)."""
+    return NET_MAGIC[net or "mainnet"]
 
 
 # ----------------------------------------------------------------------------- driving the real code
 def run_history(h, scratch):
     """h = {max, init, absent?, steps: [{op: batch|crash, sizes, mode: inproc|fork|fresh}]}
     -> the trace record for Trace_BlockStore (without id)."""
-    magic = _magic()
+    magic = _magic(h.get("net"))
+    fsrig.NET = h.get("net")
+    try:
+        return _run_history(h, scratch, magic)
+    finally:
+        fsrig.NET = None
+
+
+def _run_history(h, scratch, magic):
     d = os.path.join(scratch, "data")
     shutil.rmtree(scratch, ignore_errors=True)
     os.makedirs(scratch)
@@ -339,6 +351,8 @@ def _rand_history(rnd, mx, fresh_ok):
     h = {"max": mx, "init": init, "steps": steps}
     if not init and rnd.random() < 0.3:
         h["absent"] = True
+    if rnd.random() < 0.3:
+        h["net"] = rnd.choice(["testnet", "regtest"])      # the node configured for another network: its magic in every record
     return h
 
 
@@ -372,6 +386,11 @@ def _boundary_histories():
                                                          {"op": "crash", "sizes": [100, 10240, 100, 10240]}]})
     hs.append({"max": 24, "init": [], "absent": True, "steps": [{"op": "batch", "sizes": [], "mode": "inproc"},
                                                                  {"op": "batch", "sizes": [0], "mode": "fork"}]})
+    for net in ("testnet", "regtest", "mainnet"):
+        hs.append({"max": 24, "net": net, "init": [], "steps": [{"op": "batch", "sizes": [4, 16], "mode": "inproc"},
+                                                                 {"op": "batch", "sizes": [8], "mode": "fork"}]})
+        hs.append({"max": 24, "net": net, "init": [[4]], "steps": [{"op": "batch", "sizes": [4], "mode": "fresh"},
+                                                                    {"op": "crash", "sizes": [0, 16]}]})
     return hs
 
 
